@@ -225,6 +225,8 @@ func readCollectionSize(source io.Reader, version primitive.ProtocolVersion) (si
 	}
 	if err != nil {
 		err = fmt.Errorf("cannot read collection size: %w", err)
+	} else if size < 0 {
+		err = fmt.Errorf("invalid collection size: %d", size)
 	}
 	return
 }
